@@ -321,3 +321,187 @@ pub fn degenerate_stride_cases() -> (u64, Option<String>) {
     }
     (n, None)
 }
+
+// ---------------------------------------------------------------------------------------------
+// C17 over the same degenerate data: the shipped strategies, a fixed history of calls through
+// every entry point (with a rejected query, a batch that fails half-way and a wrongly shaped
+// buffer in between), every answer compared with the same call made ALONE on a freshly built
+// interpolator of the same inputs. Sequential: this table adds histories over inputs the seeded
+// generator cannot express, not schedules.
+// ---------------------------------------------------------------------------------------------
+
+#[derive(Debug, Clone)]
+enum HCall {
+    Interp(f64, f64),
+    Array(Vec<f64>, Vec<f64>),
+    Into(f64, f64),
+    BadBuf(f64, f64),
+}
+
+fn digest(r: std::thread::Result<Result<ArrayD<f64>, InterpolateError>>) -> String {
+    match r {
+        Ok(Ok(a)) => format!("Ok shape={:?} bits={:x?}", a.shape(), a.iter().map(|v| v.to_bits()).collect::<Vec<_>>()),
+        Ok(Err(e)) => format!("Err {e:?}"),
+        Err(_) => "panic".to_string(),
+    }
+}
+
+/// ties the closure's parameter type to the type of `_witness`
+fn typed<T, F: Fn(&T, &HCall) -> String>(_witness: &T, f: F) -> F {
+    f
+}
+
+fn history(xs: &[f64], ys: &[f64]) -> Vec<HCall> {
+    let pts = |a: &[f64]| {
+        let n = a.len();
+        (a[0], a[n - 1], (a[0] + a[1]) / 2.0, (a[n - 2] + a[n - 1]) / 2.0 + 0.125, a[0] - 3.0)
+    };
+    let (lo, hi, mid, mid2, out) = pts(xs);
+    let (ylo, yhi, ymid, ymid2, yout) = if ys.is_empty() { (0.0, 0.0, 0.0, 0.0, 0.0) } else { pts(ys) };
+    use HCall::*;
+    vec![
+        Interp(mid, ymid),
+        Interp(out, ymid),
+        Interp(mid, ymid),
+        Interp(mid, yout),
+        Interp(lo, yhi),
+        Array(vec![mid, hi, mid2], vec![ymid2, ylo, ymid]),
+        BadBuf(mid, ymid),
+        Interp(mid, ymid),
+        Into(mid2, ymid),
+        Array(vec![mid2, out, mid], vec![ymid, ymid, ymid2]),
+        Interp(mid2, ymid),
+        Interp(out, yout),
+        Interp(hi, ylo),
+        Array(vec![hi, lo], vec![yhi, yhi]),
+        Into(out, ymid2),
+        Into(mid, yout),
+        Interp(mid, ymid),
+        Interp(mid, ymid2),
+    ]
+}
+
+macro_rules! hist1 {
+    ($n:ident, $cmp:ident, $label:expr, $data:expr, $x:expr, [$($strat:expr),+]) => {{
+        $(
+            $n += 1;
+            let mk = || Interp1DBuilder::new($data).x($x).strategy($strat).build();
+            if let Ok(shared) = mk() {
+                let xs: Vec<f64> = ($x).iter().copied().collect();
+                let trailing: Vec<usize> = ($data).shape()[1..].to_vec();
+                let exec = typed(&shared, |it, c| match c {
+                    HCall::Interp(q, _) => digest(catch_unwind(AssertUnwindSafe(|| it.interp(*q).map(|a| a.into_dyn())))),
+                    HCall::Array(qs, _) => digest(catch_unwind(AssertUnwindSafe(|| {
+                        it.interp_array(&ArrayD::from_shape_vec(IxDyn(&[qs.len()]), qs.clone()).unwrap()).map(|a| a.into_dyn())
+                    }))),
+                    HCall::Into(q, _) => digest(catch_unwind(AssertUnwindSafe(|| {
+                        let mut buf = ArrayD::from_elem(IxDyn(&trailing), f64::NAN).into_dimensionality().unwrap();
+                        it.interp_into(*q, buf.view_mut()).map(|_| buf.into_dyn())
+                    }))),
+                    HCall::BadBuf(q, _) => {
+                        let mut bad = trailing.clone();
+                        match bad.last_mut() {
+                            Some(l) => *l += 1,
+                            None => return "skip".to_string(),
+                        }
+                        let r = catch_unwind(AssertUnwindSafe(|| {
+                            let mut buf = ArrayD::from_elem(IxDyn(&bad), f64::NAN).into_dimensionality().unwrap();
+                            it.interp_into(*q, buf.view_mut()).map(|_| ArrayD::<f64>::zeros(IxDyn(&[0])))
+                        }));
+                        // what a failed call leaves in the caller's buffer is not compared
+                        match r { Ok(Ok(_)) => "Ok".to_string(), other => digest(other) }
+                    }
+                });
+                for (k, c) in history(&xs, &[]).iter().enumerate() {
+                    let got = exec(&shared, c);
+                    let fresh = mk().expect("second build of the same inputs");
+                    let want = exec(&fresh, c);
+                    $cmp += 1;
+                    if got != want {
+                        return ($n, $cmp, Some(format!("{} [{}]: call {k} {c:?} after the calls before it gives {got} but alone on a freshly built interpolator {want}", $label, stringify!($strat))));
+                    }
+                }
+            }
+        )+
+    }};
+}
+
+macro_rules! hist2 {
+    ($n:ident, $cmp:ident, $label:expr, $data:expr, $x:expr, $y:expr, [$($strat:expr),+]) => {{
+        $(
+            $n += 1;
+            let mk = || Interp2DBuilder::new($data).x($x).y($y).strategy($strat).build();
+            if let Ok(shared) = mk() {
+                let xs: Vec<f64> = ($x).iter().copied().collect();
+                let ys: Vec<f64> = ($y).iter().copied().collect();
+                let trailing: Vec<usize> = ($data).shape()[2..].to_vec();
+                let exec = typed(&shared, |it, c| match c {
+                    HCall::Interp(a, b) => digest(catch_unwind(AssertUnwindSafe(|| it.interp(*a, *b).map(|r| r.into_dyn())))),
+                    HCall::Array(qa, qb) => digest(catch_unwind(AssertUnwindSafe(|| {
+                        it.interp_array(&ArrayD::from_shape_vec(IxDyn(&[qa.len()]), qa.clone()).unwrap(), &ArrayD::from_shape_vec(IxDyn(&[qb.len()]), qb.clone()).unwrap()).map(|r| r.into_dyn())
+                    }))),
+                    HCall::Into(a, b) => digest(catch_unwind(AssertUnwindSafe(|| {
+                        let mut buf = ArrayD::from_elem(IxDyn(&trailing), f64::NAN).into_dimensionality().unwrap();
+                        it.interp_into(*a, *b, buf.view_mut()).map(|_| buf.into_dyn())
+                    }))),
+                    HCall::BadBuf(a, b) => {
+                        let mut bad = trailing.clone();
+                        match bad.last_mut() {
+                            Some(l) => *l += 1,
+                            None => return "skip".to_string(),
+                        }
+                        let r = catch_unwind(AssertUnwindSafe(|| {
+                            let mut buf = ArrayD::from_elem(IxDyn(&bad), f64::NAN).into_dimensionality().unwrap();
+                            it.interp_into(*a, *b, buf.view_mut()).map(|_| ArrayD::<f64>::zeros(IxDyn(&[0])))
+                        }));
+                        match r { Ok(Ok(_)) => "Ok".to_string(), other => digest(other) }
+                    }
+                });
+                for (k, c) in history(&xs, &ys).iter().enumerate() {
+                    let got = exec(&shared, c);
+                    let fresh = mk().expect("second build of the same inputs");
+                    let want = exec(&fresh, c);
+                    $cmp += 1;
+                    if got != want {
+                        return ($n, $cmp, Some(format!("{} [{}]: call {k} {c:?} after the calls before it gives {got} but alone on a freshly built interpolator {want}", $label, stringify!($strat))));
+                    }
+                }
+            }
+        )+
+    }};
+}
+
+/// returns (interpolators driven, responses compared, first violation)
+pub fn degenerate_history_cases() -> (u64, u64, Option<String>) {
+    use ndarray::{Array2, Array3};
+    use ndarray_interp::interp1d::cubic_spline::CubicSpline;
+    use ndarray_interp::interp1d::Linear;
+    use ndarray_interp::interp2d::Bilinear;
+    let mut n = 0u64;
+    let mut cmp = 0u64;
+    let ax = |k: usize| Array1::from_iter((0..k).map(|i| 1.5 * i as f64 - 1.0));
+    let row3 = Array1::from_vec(vec![7.0, -2.5, 11.0]);
+    let plane = Array2::from_shape_fn((2, 3), |(i, j)| (10 * i + j) as f64 + 0.5);
+    let col = Array2::from_shape_fn((5, 1), |(i, _)| (i * i) as f64 * 0.5 - 3.0);
+    let mid = Array3::from_shape_fn((4, 1, 2), |(i, _, k)| ((i * 3 + k) % 5) as f64);
+    let (a3, a4, a5, a6) = (ax(3), ax(4), ax(5), ax(6));
+    let (s1, s2) = (ndarray::arr0(4.25), ndarray::arr0(-1.5));
+
+    hist1!(n, cmp, "1-D, owned data of shape (4,0)", Array2::<f64>::zeros((4, 0)), ax(4), [Linear::new(), Linear::new().extrapolate(true), CubicSpline::new()]);
+    hist1!(n, cmp, "1-D, owned data of shape (5,2,0)", Array3::<f64>::zeros((5, 2, 0)), ax(5), [Linear::new(), CubicSpline::new().extrapolate(true)]);
+    hist1!(n, cmp, "1-D, owned dynamic-rank data of shape [4,0]", ArrayD::<f64>::zeros(IxDyn(&[4, 0])), ax(4), [Linear::new(), CubicSpline::new()]);
+    hist1!(n, cmp, "1-D, view: one row broadcast to (4,3)", row3.broadcast((4, 3)).unwrap(), a4.view(), [Linear::new(), Linear::new().extrapolate(true), CubicSpline::new(), CubicSpline::new().extrapolate(true)]);
+    hist1!(n, cmp, "1-D, view: a plane broadcast to (5,2,3)", plane.broadcast((5, 2, 3)).unwrap(), a5.view(), [Linear::new(), CubicSpline::new()]);
+    hist1!(n, cmp, "1-D, dynamic-rank view: one row broadcast to [6,3]", row3.broadcast(IxDyn(&[6, 3])).unwrap(), a6.view(), [Linear::new(), CubicSpline::new()]);
+    hist1!(n, cmp, "1-D, view: a scalar broadcast to (6)", s1.broadcast(6).unwrap(), a6.view(), [Linear::new(), CubicSpline::new()]);
+    hist1!(n, cmp, "1-D, view: one column broadcast to (5,4)", col.broadcast((5, 4)).unwrap(), a5.view(), [Linear::new(), Linear::new().extrapolate(true), CubicSpline::new()]);
+    hist1!(n, cmp, "1-D, view: middle axis broadcast to (4,3,2)", mid.broadcast((4, 3, 2)).unwrap(), a4.view(), [Linear::new(), CubicSpline::new()]);
+
+    hist2!(n, cmp, "2-D, owned data of shape (3,4,0)", Array3::<f64>::zeros((3, 4, 0)), ax(3), ax(4), [Bilinear::new(), Bilinear::new().extrapolate(true)]);
+    hist2!(n, cmp, "2-D, view: one row broadcast to (4,3)", row3.broadcast((4, 3)).unwrap(), a4.view(), a3.view(), [Bilinear::new(), Bilinear::new().extrapolate(true)]);
+    hist2!(n, cmp, "2-D, view: one column broadcast to (5,4)", col.broadcast((5, 4)).unwrap(), a5.view(), a4.view(), [Bilinear::new(), Bilinear::new().extrapolate(true)]);
+    hist2!(n, cmp, "2-D, view: a scalar broadcast to (3,3)", s2.broadcast((3, 3)).unwrap(), a3.view(), a3.view(), [Bilinear::new()]);
+    hist2!(n, cmp, "2-D, view: a plane broadcast to (5,2,3)", plane.broadcast((5, 2, 3)).unwrap(), a5.view(), ax(2), [Bilinear::new()]);
+    hist2!(n, cmp, "2-D, view: y axis broadcast to (4,6,2) (stride 0 along y)", mid.broadcast((4, 6, 2)).unwrap(), a4.view(), a6.view(), [Bilinear::new(), Bilinear::new().extrapolate(true)]);
+    (n, cmp, None)
+}
